@@ -159,7 +159,7 @@ class WireRules(Rule):
 
     def _inbound_w4(self, d):
         L = self.L
-        if d.kind != "data" or d.desync or d.aborted:
+        if d.kind != "data" or d.desync or d.aborted or (d.coarse and len(d.frame_fx) > 1):
             return
         for fx in d.frame_fx:
             tag = fx["tag"]
